@@ -378,13 +378,50 @@ def _gen_provenance(ctx, fn: FunctionInfo, ng: ast.AST, use: ast.AST, depth: int
                         if isinstance(s, ast.Assign) and isinstance(s.targets[0], ast.Subscript):
                             tg = s.targets[0]
                         if tg is not None and A.unparse(tg.value) == f"{ng.id}.kinds":
-                            val = A.unparse(s.value)
-                            if "max(" in val and "+ 1" in val:
-                                return True
+                            v_ = s.value
+                            # max(<current counter>, <index> + k) with k >= 1
+                            if isinstance(v_, ast.Call) and isinstance(v_.func, ast.Name) and v_.func.id == "max":
+                                for a_ in v_.args:
+                                    if isinstance(a_, ast.BinOp) and isinstance(a_.op, ast.Add) and isinstance(a_.right, ast.Constant) and isinstance(a_.right.value, int) and a_.right.value >= 1:
+                                        return True
                     return False
 
+                def seeding_problems(z) -> list:
+                    """the names the seeding loop ranges over, and how they are parsed"""
+                    probs = []
+                    it = z.stmt.iter
+                    srcs = set()
+                    if isinstance(it, ast.Name):
+                        # everything that flows into the list
+                        for q in A.walk_no_nested(fn.node):
+                            if isinstance(q, ast.Assign) and any(isinstance(t, ast.Name) and t.id == it.id for t in q.targets):
+                                srcs.add(A.unparse(q.value))
+                            if isinstance(q, ast.Call) and isinstance(q.func, ast.Attribute) and A.unparse(q.func.value) == it.id and q.func.attr in ("append", "extend") and q.args:
+                                srcs.add(A.unparse(q.args[0]))
+                    else:
+                        srcs.add(A.unparse(it))
+                    blob = " ".join(sorted(srcs))
+                    for what, needle in (("the block and region names", "blocks"), ("the control variable of branching blocks", "'variable'"), ("the variables of assignment blocks", "'variable_assignment'")):
+                        if needle not in blob.replace('"', "'"):
+                            probs.append(f"the seeding does not look at {what}")
+                    # names are parsed with a pattern first, subject second
+                    for q in A.walk_no_nested(ast.Module(z.stmt.body, [])):
+                        if isinstance(q, ast.Call) and (A.dotted(q.func) or "") in ("re.fullmatch", "re.match", "re.search") and len(q.args) >= 2:
+                            if not (isinstance(q.args[0], ast.Constant) and isinstance(q.args[0].value, str)):
+                                probs.append(f"{A.unparse(q.func)} is not given a constant pattern as first argument")
+                            else:
+                                pat = q.args[0].value
+                                for sep in ("_block", "_region", "_var_"):
+                                    if sep not in pat and "block|region" not in pat:
+                                        probs.append(f"the pattern does not cover generated names with '{sep}'")
+                                if "_var_" not in pat:
+                                    probs.append("the pattern does not cover generated variable names")
+                    return probs
+
                 seed_nodes = [z for z in cfg.nodes if seeds(z)]
-                if seed_nodes and un not in cfg.reachable(d, avoid=lambda z: z in seed_nodes):
+                if seed_nodes and un not in cfg.reachable(d, avoid=lambda z: z in seed_nodes) and seeding_problems(seed_nodes[0]):
+                    res.append(("bad", "the generator of a loaded graph is seeded incompletely: " + "; ".join(seeding_problems(seed_nodes[0])) + ": names of that kind are handed out again although they are present"))
+                elif seed_nodes and un not in cfg.reachable(d, avoid=lambda z: z in seed_nodes):
                     # the seeding loop must range over names taken from the input
                     src = A.unparse(seed_nodes[0].stmt.iter)
                     res.append(("ok", f"fresh generator whose counters are advanced past the names found in the input (loop over {src}) before use"))
